@@ -4,8 +4,11 @@ import (
 	"context"
 	"fmt"
 	"os"
+	"runtime"
 	"strconv"
+	"strings"
 	"testing"
+	"time"
 
 	"pgregory.net/rapid"
 )
@@ -38,6 +41,9 @@ func envInt(name string, def int) int {
 func Prop(t *testing.T, id string, f func(rt *rapid.T)) {
 	Ev.Property = id
 	rapid.Check(t, func(rt *rapid.T) {
+		caseDone := make(chan struct{})
+		defer close(caseDone)
+		go hangWatchdog(id, caseDone)
 		defer func() {
 			if r := recover(); r != nil {
 				if he, ok := r.(HarnessError); ok {
@@ -86,3 +92,63 @@ type fatalT struct{ t *testing.T }
 
 func (f *fatalT) Fatalf(format string, args ...interface{}) { f.t.Fatalf(format, args...) }
 func (f *fatalT) Logf(format string, args ...interface{})   { f.t.Logf(format, args...) }
+
+// hangWatchdog is the last line of defence against CPU-bound non-termination in the code under
+// test (a loop that neither blocks nor reaches a park point, which the scheduler cannot see). A case
+// normally takes milliseconds to a few seconds. If one is still running after hangAfter, the stacks
+// of running goroutines are sampled twice, 45 s apart: a goroutine that is inside wharf code in the
+// same function both times is reported as a violation (the process exits; replay is by seed);
+// anything else is harness trouble (exit 2), never a verdict.
+func hangWatchdog(id string, done chan struct{}) {
+	hangAfter := time.Duration(envInt("VERIF_HANG_AFTER_S", 240)) * time.Second
+	select {
+	case <-done:
+		return
+	case <-time.After(hangAfter):
+	}
+	first := spinningWharfFrames()
+	select {
+	case <-done:
+		return
+	case <-time.After(45 * time.Second):
+	}
+	second := spinningWharfFrames()
+	for fn := range first {
+		if second[fn] != "" {
+			fmt.Printf("PROPERTY-VIOLATION class=%s/no-termination: a case is still running after %v and a goroutine has been executing wharf code in %s for at least 45 s without blocking:\n%s\n", id, hangAfter+45*time.Second, fn, second[fn])
+			Ev.Flush()
+			os.Exit(1)
+		}
+	}
+	fmt.Fprintf(os.Stderr, "HARNESS: a case is still running after %v but no goroutine is spinning in wharf code\n%s\n", hangAfter+45*time.Second, trunc(allStacks(), 3000))
+	Ev.Flush()
+	os.Exit(2)
+}
+
+// spinningWharfFrames returns, for goroutines that are running or runnable (not blocked), the first
+// wharf function on their stack -> the stack text.
+func spinningWharfFrames() map[string]string {
+	buf := make([]byte, 1<<20)
+	n := runtime.Stack(buf, true)
+	out := map[string]string{}
+	for _, g := range strings.Split(string(buf[:n]), "\n\n") {
+		head := g
+		if i := strings.IndexByte(g, '\n'); i >= 0 {
+			head = g[:i]
+		}
+		if !strings.Contains(head, "[running") && !strings.Contains(head, "[runnable") {
+			continue
+		}
+		for _, line := range strings.Split(g, "\n") {
+			if strings.HasPrefix(line, "github.com/itchio/wharf/") && !strings.Contains(line, "/simhook.") {
+				fn := line
+				if i := strings.IndexByte(fn, '('); i > 0 {
+					fn = fn[:i]
+				}
+				out[fn] = trunc(g, 1500)
+				break
+			}
+		}
+	}
+	return out
+}
